@@ -1,32 +1,12 @@
-(* The solver model instantiated at Z mod p, and the case checker used by the C06
-   correspondence (cases are written by the harness from runs of the real solver). *)
+(* Case checker of the C06 correspondence: cases are written by the harness from runs of the
+   real solver (system dump, witness, recorded hint calls, observed outcome, all as Z data);
+   the solver model is evaluated at a field instance given by (F, ops, ofZ, toZ):
+     - [F47]  : the proved field instance Fp 47 (Base/F47.v)  — used for tinyfield systems;
+     - raw Z mod p (Base/Zp.v)                                 — used for the large fields. *)
 From Coq Require Import ZArith List Bool Arith.
-From GnarkV Require Import Base.Res Base.Zp CS.Solver.
+From GnarkV Require Import Base.Res Base.Zp Base.Fp Base.F47 CS.Solver.
 Import ListNotations.
 Local Open Scope Z_scope.
-
-Section Inst.
-Variable p : Z.
-
-Definition zsolve := solve Z 0 1 (addp p) (mulp p) (subp p) (oppp p) (divp p) (invp p) Z.eq_dec.
-Definition zlro := lro Z 0.
-Definition zev := ev Z 0 (addp p) (mulp p).
-
-Fixpoint zlist_eqb (a b : list Z) : bool :=
-  match a, b with
-  | [], [] => true
-  | x :: a', y :: b' => (x =? y) && zlist_eqb a' b'
-  | _, _ => false
-  end.
-
-(* recorded hint calls: (hint index, inputs, outputs, ok) *)
-Definition hint_table := list (nat * list Z * list Z * bool).
-Definition table_oracle (t : hint_table) : oracle Z :=
-  fun hid nout xs =>
-    match find (fun e => let '(h, i, o, _) := e in Nat.eqb h hid && Nat.eqb (length o) nout && zlist_eqb i xs) t with
-    | Some (_, _, o, ok) => Some (o, ok)
-    | None => None
-    end.
 
 (* observed outcome of the real solver *)
 Inductive obs :=
@@ -35,19 +15,19 @@ Inductive obs :=
 | ObsErr (k : err_kind) (cid : nat)
 | ObsPanic.
 
-Definition opt_list_eqb (a : list (option Z)) (b : list Z) : bool :=
-  zlist_eqb (map (fun o => match o with Some z => z | None => -1 end) a) b.
+Definition hint_table := list (nat * list Z * list Z * bool).
 
-Fixpoint r1c_rows (v : vals Z) (instrs : list (instr Z)) : list (nat * Z * Z * Z) :=
-  match instrs with
-  | [] => []
-  | IR1C _ cid l r o :: rest => (cid, zev v l, zev v r, zev v o) :: r1c_rows v rest
-  | _ :: rest => r1c_rows v rest
+Record scase := {
+  c_r1cs : bool; c_nbpub : nat; c_nbwires : nat; c_size : nat;
+  c_instrs : list (instr Z); c_order : list nat; c_wit : list Z;
+  c_hints : hint_table; c_obs : obs }.
+
+Fixpoint zlist_eqb (a b : list Z) : bool :=
+  match a, b with
+  | [], [] => true
+  | x :: a', y :: b' => (x =? y) && zlist_eqb a' b'
+  | _, _ => false
   end.
-
-Definition rows_match (rows : list (nat * Z * Z * Z)) (A B C : list Z) : bool :=
-  forallb (fun t => let '(cid, a, b, c) := t in
-     (nth cid A (-1) =? a) && (nth cid B (-1) =? b) && (nth cid C (-1) =? c)) rows.
 
 Definition err_kind_eqb (a b : err_kind) : bool :=
   match a, b with
@@ -56,19 +36,60 @@ Definition err_kind_eqb (a b : err_kind) : bool :=
   | _, _ => false
   end.
 
-Record scase := {
-  c_r1cs : bool; c_nbpub : nat; c_nbwires : nat; c_size : nat;
-  c_instrs : list (instr Z); c_order : list nat; c_wit : list Z;
-  c_hints : hint_table; c_obs : obs }.
+Section Inst.
+Variable F : Type.
+Variables (zero one : F) (add mul sub : F -> F -> F) (opp : F -> F) (div : F -> F -> F) (inv : F -> F).
+Variable eq_dec : forall x y : F, {x = y} + {x <> y}.
+Variable ofZ : Z -> F.
+Variable toZ : F -> Z.
+
+Definition map_lexp (l : lexp Z) : lexp F := map (fun t => (ofZ (fst t), snd t)) l.
+Definition map_hlexp (l : hlexp Z) : hlexp F := map (fun t => (ofZ (fst t), snd t)) l.
+Definition map_instr (i : instr Z) : instr F :=
+  match i with
+  | IR1C _ cid l r o => IR1C F cid (map_lexp l) (map_lexp r) (map_lexp o)
+  | ISparse _ cid xa xb xc ql qr qo qm qc cm => ISparse F cid xa xb xc (ofZ ql) (ofZ qr) (ofZ qo) (ofZ qm) (ofZ qc) cm
+  | IMul _ cid xa xb xc qm => IMul F cid xa xb xc (ofZ qm)
+  | IAdd _ cid xa xb xc ql qr qc => IAdd F cid xa xb xc (ofZ ql) (ofZ qr) (ofZ qc)
+  | IBool _ cid xa ql qm => IBool F cid xa (ofZ ql) (ofZ qm)
+  | IHint _ hid ins start nout => IHint F hid (map map_hlexp ins) start nout
+  end.
+
+Definition isolve := solve F zero one add mul sub opp div inv eq_dec.
+Definition ilro := lro F zero.
+Definition iev := ev F zero add mul.
+
+(* recorded hint calls: (hint index, inputs, outputs, ok) *)
+Definition table_oracle (t : hint_table) : oracle F :=
+  fun hid nout xs =>
+    match find (fun e => let '(h, i, o, _) := e in Nat.eqb h hid && Nat.eqb (length o) nout && zlist_eqb i (map toZ xs)) t with
+    | Some (_, _, o, ok) => Some (map ofZ o, ok)
+    | None => None
+    end.
+
+Definition opt_list_eqb (a : list (option F)) (b : list Z) : bool :=
+  zlist_eqb (map (fun o => match o with Some z => toZ z | None => -1 end) a) b.
+
+Fixpoint r1c_rows (v : vals F) (instrs : list (instr F)) : list (nat * Z * Z * Z) :=
+  match instrs with
+  | [] => []
+  | IR1C _ cid l r o :: rest => (cid, toZ (iev v l), toZ (iev v r), toZ (iev v o)) :: r1c_rows v rest
+  | _ :: rest => r1c_rows v rest
+  end.
+
+Definition rows_match (rows : list (nat * Z * Z * Z)) (A B C : list Z) : bool :=
+  forallb (fun t => let '(cid, a, b, c) := t in
+     (nth cid A (-1) =? a) && (nth cid B (-1) =? b) && (nth cid C (-1) =? c)) rows.
 
 Definition check_case (c : scase) : bool :=
-  let r := zsolve (table_oracle (c_hints c)) (c_r1cs c) (c_nbwires c) (c_instrs c) (c_order c) (c_wit c) in
+  let instrs := map map_instr (c_instrs c) in
+  let r := isolve (table_oracle (c_hints c)) (c_r1cs c) (c_nbwires c) instrs (c_order c) (map ofZ (c_wit c)) in
   match r, c_obs c with
   | Ok v, ObsOkR1CS W A B C =>
-      opt_list_eqb (dump Z v (c_nbwires c)) W && rows_match (r1c_rows v (c_instrs c)) A B C
+      opt_list_eqb (dump F v (c_nbwires c)) W && rows_match (r1c_rows v instrs) A B C
   | Ok v, ObsOkSparse Lv Rv Ov =>
-      let '(l, r', o) := zlro v (c_nbpub c) (c_size c) (c_instrs c) in
-      zlist_eqb l Lv && zlist_eqb r' Rv && zlist_eqb o Ov
+      let '(l, r', o) := ilro v (c_nbpub c) (c_size c) instrs in
+      zlist_eqb (map toZ l) Lv && zlist_eqb (map toZ r') Rv && zlist_eqb (map toZ o) Ov
   | Err k i, ObsErr k' i' =>
       err_kind_eqb k k' && (match k with EUnsat | EDivZero | EBool => Nat.eqb i i' | _ => true end)
   | Panic, ObsPanic => true
@@ -81,5 +102,10 @@ Fixpoint mismatches_from (k : nat) (cs : list scase) : list nat :=
   | [] => []
   | c :: cs' => if check_case c then mismatches_from (S k) cs' else k :: mismatches_from (S k) cs'
   end.
-Definition mismatches := mismatches_from O.
 End Inst.
+
+Definition mismatches_raw (p : Z) : list scase -> list nat :=
+  mismatches_from Z 0 1 (addp p) (mulp p) (subp p) (oppp p) (divp p) (invp p) Z.eq_dec (fun z => z) (fun z => z) O.
+
+Definition mismatches_f47 : list scase -> list nat :=
+  mismatches_from F47 zero47 one47 add47 mul47 sub47 opp47 div47 inv47 eq_dec47 mk47 val47 O.
